@@ -437,6 +437,8 @@ class SymExec:
         if isinstance(s, ast.If):
             c = self.ev(s.test, st, depth)
             t = self.truth(c)
+            if t is None:
+                t = self.recall(s.test, st)
             if t is True:
                 return self.block(s.body, [st], depth)
             if t is False:
@@ -475,6 +477,26 @@ class SymExec:
                           ast.FunctionDef, ast.ClassDef)):
             return [st]
         raise AnalysisError(f'symbolic execution: statement {type(s).__name__} not supported')
+
+    def recall(self, test, st):
+        """earlier decision for a textually identical test, provided no self-field mentioned in it was written since"""
+        text = U.src(test)
+        flds = {U.chain(n)[1] for n in ast.walk(test) if isinstance(n, ast.Attribute) and U.chain(n) and U.chain(n)[0] == 'self' and len(U.chain(n)) >= 2}
+        idx = None
+        for i, e in enumerate(st.events):
+            if e[0] == 'cond' and e[2] == text:
+                idx = i
+        if idx is None:
+            return None
+        for e in st.events[idx + 1:]:
+            if e[0] == 'write' and e[1] in flds:
+                return None
+            if e[0] == 'write' and ('_' + e[1].lstrip('_')) in {('_' + f.lstrip('_')) for f in flds}:
+                return None
+        names = U.names_in(test) - {'self'}
+        if names:
+            return None        # depends on locals: do not reuse
+        return st.events[idx][1] == 'T'
 
     def assign(self, t, v, st, depth, stmt):
         if isinstance(t, ast.Name):
